@@ -116,6 +116,8 @@ def _dense(ift, lin, doms, sizes, tgt):
 def _oracle(case):
     import nifty.cl as ift
     kind = case["aux"]
+    if kind == "cmetric":
+        return _oracle_cmetric(case, ift)
     U = lambda n: ift.UnstructuredDomain(n)
     if kind == "outer":
         xa, xb = np.array(case["xa"]), np.array(case["xb"])
@@ -225,3 +227,162 @@ def _oracle(case):
         A = _arr(r.jac.adjoint_times(ift.Field.scalar(1.))).reshape(x.size, 1)
         return _check(kind, _arr(r.val).ravel(), ref(x), J, A, _fd(ref, x))
     raise ValueError(kind)
+
+
+# ---------------------------------------------------------------------------------------------- complex models + metric
+CF = {"id": lambda z: z, "exp": np.exp, "sin": np.sin, "tanh": np.tanh, "sinh": np.sinh}
+
+
+def gen_cmetric(rng, n):
+    """a Gaussian energy (complex data) on top of a complex-valued model built from complex scalings, complex diagonal
+    operators, complex dense matrices, FFTs and holomorphic point-wise functions; `want_metric` requested"""
+    out = []
+    dy = lambda: rng.randint(-8, 8) / 8
+    cz = lambda: [dy(), dy()]
+    for _ in range(n):
+        m = rng.choice([1, 2, 3, 4])
+        steps = []
+        for _ in range(rng.choice([1, 1, 2, 3])):
+            k = rng.choice(["scale", "scale", "diag", "dense", "fft", "ptw", "scale_real_neg"])
+            if k == "scale":
+                g = rng.choice([[0.0, 1.0], [0.0, -2.0], [1.0, 1.0], [-0.5, 0.75], [0.0, 0.5]])
+                steps.append(dict(k="scale", g=g))
+            elif k == "scale_real_neg":
+                steps.append(dict(k="scale", g=[rng.choice([-1.0, -2.0, -0.5]), 0.0]))
+            elif k == "diag":
+                steps.append(dict(k="diag", d=[[rng.choice([-1.5, -1, 0.5, 1, 2]), dy()] for _ in range(m)]))
+            elif k == "dense":
+                steps.append(dict(k="dense", a=[[cz() for _ in range(m)] for _ in range(m)]))
+            elif k == "fft":
+                steps.append(dict(k="fft"))
+            else:
+                steps.append(dict(k="ptw", f=rng.choice(["exp", "sin", "tanh", "sinh"])))
+        out.append(dict(aux="cmetric", n=m, steps=steps, x=[[dy() / 2, dy() / 2] for _ in range(m)],
+                        data=[cz() for _ in range(m)], icov=[rng.choice([0.25, 0.5, 1.0, 2.0]) for _ in range(m)],
+                        cov=rng.choice(["diag", "none", "scalar"]), scale_lh=rng.choice([None, None, 2.0, 0.5]),
+                        wm=True))
+    return out
+
+
+def _cplx(l):
+    return np.array([complex(a, b) for a, b in l])
+
+
+def _oracle_cmetric(case, ift):
+    n = case["n"]
+    sp = ift.RGSpace(n)
+    d = ift.DomainTuple.make(sp)
+    cur = ift.ScalingOperator(d, 1.)
+    tgt = d
+    refs = []
+    for s in case["steps"]:
+        if s["k"] == "scale":
+            g = complex(*s["g"])
+            cur = ift.ScalingOperator(tgt, g if g.imag != 0 else g.real) @ cur
+            refs.append(lambda z, g=g: g * z)
+        elif s["k"] == "diag":
+            dv = _cplx(s["d"])
+            cur = ift.makeOp(ift.makeField(tgt, dv)) @ cur
+            refs.append(lambda z, dv=dv: dv * z)
+        elif s["k"] == "dense":
+            a = np.array([[complex(*c) for c in row] for row in s["a"]])
+            cur = ift.MatrixProductOperator(tgt, a) @ cur
+            refs.append(lambda z, a=a: a @ z)
+        elif s["k"] == "fft":
+            F = ift.FFTOperator(tgt)
+            cur = F @ cur
+            ctgt = F.target
+            Fm = np.array([_arrc(F(ift.makeField(tgt, e))) for e in np.eye(n, dtype=complex)]).T
+            refs.append(lambda z, Fm=Fm: Fm @ z)
+            tgt = ctgt
+        else:
+            cur = cur.ptw(s["f"])
+            refs.append(CF[s["f"]])
+    model = cur
+
+    def ref_model(z):
+        for r in refs:
+            z = r(z)
+        return z
+    data = ift.makeField(tgt, _cplx(case["data"]))
+    icov = np.array(case["icov"])
+    if case["cov"] == "diag":
+        N = ift.makeOp(ift.makeField(tgt, icov), sampling_dtype=np.complex128)
+    elif case["cov"] == "scalar":
+        N = ift.ScalingOperator(tgt, float(icov[0]), np.complex128)
+        icov = np.full(n, icov[0])
+    else:
+        N = None
+        icov = np.ones(n)
+    E = ift.GaussianEnergy(data=data, inverse_covariance=N) @ model
+    c = case["scale_lh"]
+    if c is not None:
+        E = E.scale(c)
+    else:
+        c = 1.0
+    x0 = _cplx(case["x"])
+    x = ift.makeField(d, x0)
+    lin = E(ift.Linearization.make_var(x, True))
+    sig = {"site": "aux:cmetric"}
+    dv = _cplx(case["data"])
+    ref = lambda z: c * 0.5 * float(np.real(np.vdot(ref_model(z) - dv, icov * (ref_model(z) - dv))))
+    val = float(np.real(_arrc(lin.val)[()] if _arrc(lin.val).shape == () else _arrc(lin.val).ravel()[0]))
+    if not np.isfinite(ref(x0)) or abs(ref(x0)) > 1e6:
+        return None
+    tol = lambda b: 1e-10 * max(1.0, float(np.max(np.abs(b), initial=0)))
+    if abs(val - ref(x0)) > tol(ref(x0)):
+        return (f"cmetric: value {val!r} differs from the reference {ref(x0)!r}", dict(sig, kind="value"))
+    # real-linear probing: directions e_j and i e_j
+    dirs = [e for e in np.eye(n, dtype=complex)] + [1j * e for e in np.eye(n, dtype=complex)]
+    Jh = np.array([float(np.real(_arrc(lin.jac(ift.makeField(d, h))).ravel()[0])) for h in dirs])
+    FD = []
+    for h in dirs:
+        t = 1e-4
+        d1 = (ref(x0 + t * h) - ref(x0 - t * h)) / (2 * t)
+        d2 = (ref(x0 + t / 2 * h) - ref(x0 - t / 2 * h)) / t
+        FD.append((4 * d2 - d1) / 3)
+    FD = np.array(FD)
+    if np.any(np.abs(Jh - FD) > 5e-6 * max(1.0, np.max(np.abs(FD)))):
+        return ("cmetric: Jacobian of the energy differs from finite differences of the reference", dict(sig, kind="jacobian"))
+    g = _arrc(lin.gradient).ravel()
+    if np.any(np.abs(np.array([np.real(np.vdot(g, h)) for h in dirs]) - Jh) > tol(Jh)):
+        return ("cmetric: gradient (adjoint Jacobian applied to 1) is inconsistent with the Jacobian: Re<g,h> != J h",
+                dict(sig, kind="adjoint"))
+    # the metric demanded by the property: J_model^H N J_model (times the likelihood scale), from the REAL model Jacobian
+    lm = model(ift.Linearization.make_var(x))
+    Jm = np.array([_arrc(lm.jac(ift.makeField(d, e))).ravel() for e in np.eye(n, dtype=complex)]).T
+    Jmi = np.array([_arrc(lm.jac(ift.makeField(d, 1j * e))).ravel() for e in np.eye(n, dtype=complex)]).T
+    if np.any(np.abs(Jmi - 1j * Jm) > tol(Jm)):
+        return ("cmetric: the model's Jacobian is not complex-linear", dict(sig, kind="linearity"))
+    Mexp = c * (Jm.conj().T @ np.diag(icov) @ Jm)
+    if lin.metric is None:
+        return ("cmetric: the requested metric was not carried through", dict(sig, kind="metric-missing"))
+    mechs = {"linearization": lin.metric}
+    if case["scale_lh"] is None:
+        mechs["get_metric_at"] = E.get_metric_at(x)
+    for name, M in mechs.items():
+        Mm = np.array([_arrc(M(ift.makeField(d, h))).ravel() for h in dirs]).T        # n x 2n
+        want = np.concatenate([Mexp, 1j * Mexp], axis=1)
+        if np.any(np.abs(Mm - want) > tol(want)):
+            return (f"cmetric: metric ({name}) is not J^H N J of the model (max dev {np.max(np.abs(Mm - want)):.3g})",
+                    dict(sig, kind="metric", mechanism=name))
+        Mh = Mm[:, :n]
+        if np.any(np.abs(Mh - Mh.conj().T) > tol(Mh)):
+            return (f"cmetric: metric ({name}) is not Hermitian", dict(sig, kind="metric-hermitian", mechanism=name))
+        if np.min(np.linalg.eigvalsh((Mh + Mh.conj().T) / 2)) < -tol(Mh):
+            return (f"cmetric: metric ({name}) is not positive semi-definite", dict(sig, kind="metric-psd", mechanism=name))
+    # transformation pull-back (when the likelihood provides one)
+    if case["scale_lh"] is None:
+        tr = E.get_transformation()
+        if tr is not None:
+            lt = tr[1](ift.Linearization.make_var(x))
+            Jt = np.array([_arrc(lt.jac(ift.makeField(d, e))).ravel() for e in np.eye(n, dtype=complex)]).T
+            if np.any(np.abs(Jt.conj().T @ Jt - Mexp) > tol(Mexp)):
+                return ("cmetric: J^H J of get_transformation() differs from J^H N J of the model",
+                        dict(sig, kind="metric", mechanism="transformation"))
+    return None
+
+
+def _arrc(f):
+    v = f.val
+    return np.asarray(v.asnumpy() if hasattr(v, "asnumpy") else v)
